@@ -114,6 +114,10 @@ def gen_packet(impl, sep, rng, maxlen, conv=False):
     if name in (b"autosep", b"b64"):
         alphabet = bytes(set(sep or b"")) + b"xyz\x00\xff"
         return bytes(rng.choice(alphabet) for _ in range(n))
+    if name == b"line" and len(impl) > 2:
+        # unicode_errors="surrogateescape": any byte string is a valid line (undecodable bytes become lone surrogates)
+        raw = bytes(rng.choice(b"ab \xe9\xff\x80") for _ in range(n))
+        return raw.decode(impl[1].decode(), impl[2].decode())
     if name == b"line":
         if rng.random() < 0.12:
             return sep.decode("ascii")          # a blank line: a packet of its own when keep_end=True
@@ -134,6 +138,8 @@ def configs(thorough):
         for keep_end in (False, True):
             for enc in (b"ascii", b"latin-1"):
                 out.append(dict(kinds=(0, 1), sep=sep, keep_end=keep_end, impl=[b"line", enc]))
+    for nl, sep in (("LF", b"\n"), ("CRLF", b"\r\n")):
+        out.append(dict(kinds=(0, 1), sep=sep, keep_end=False, impl=[b"line", b"ascii", b"surrogateescape"]))
     for sep in (b"\n", b"\r\n", b"aa", b"aba", b"abc"):
         out.append(dict(kinds=(0, 1), sep=sep, keep_end=False, impl=[b"autosep"]))
     for alphabet in (b"standard", b"urlsafe"):
@@ -169,7 +175,7 @@ def build(cfgd, kind, pkts, limit, hint):
         sent.append(sc.canon_packet(p))
     name = cfgd["impl"][0]
     if name == b"line":
-        dec = 1 if cfgd["impl"][1] == b"ascii" else 0
+        dec = 1 if cfgd["impl"][1] == b"ascii" and len(cfgd["impl"]) == 2 else 0      # surrogateescape: every byte string decodes
     elif name in (b"autosep", b"fixed"):
         dec = 0
     else:
@@ -183,7 +189,7 @@ def spec_wire(cfgd, p):
     name, sep = cfgd["impl"][0], cfgd.get("sep")
     if name == b"line":
         try:
-            data = p.encode(cfgd["impl"][1].decode())
+            data = p.encode(cfgd["impl"][1].decode(), cfgd["impl"][2].decode() if len(cfgd["impl"]) > 2 else "strict")
         except UnicodeError:
             return None
         if not data:
@@ -231,7 +237,8 @@ def validity(cfgd, kind, cfg, stream, sent, pkts):
         if len(payload) + len(sep) + 1 > limit:
             return False
         if cfgd["impl"][0] == b"line":
-            back = (data if cfgd["keep_end"] else payload).decode(cfgd["impl"][1].decode())
+            back = (data if cfgd["keep_end"] else payload).decode(cfgd["impl"][1].decode(),
+                                                                  cfgd["impl"][2].decode() if len(cfgd["impl"]) > 2 else "strict")
         elif cfgd["impl"][0] in (b"autosep", b"b64"):
             back = bytes(p)
         else:
@@ -295,6 +302,10 @@ def generic_cases(tier, rng, escalate):
             family, fcfg, hint = sc2.simple_family(kind, _fix_cfg(kind, cfg), impl)
             ser = sc2.make_serializer(family, fcfg, impl)
             proto = StreamProtocol(ser)
+            if kind == 4 and rng.random() < 0.5:
+                # a line-mode sender talking to a raw-mode receiver (e.g. stapled): every document is followed by a newline
+                from easynetwork.serializers.json import JSONSerializer
+                proto = StreamProtocol(JSONSerializer(use_lines=True))
             stream = b"".join(b"".join(proto.generate_chunks(p)) for p in pkts)
             sent = [sc2.canon_packet(p) for p in pkts]
             if len(stream) <= (9 if thorough else 7):
@@ -800,6 +811,8 @@ def oracle(inp):
     if not valid:
         return None
     rounds = run_impl(inp)
+    if sc.abnormal(rounds):
+        return sc.abnormal(rounds)
     events = [e for r in rounds for e in r[1]]
     got = [e[1] for e in events if e[0] == 0]
     bad = [e for e in events if e[0] != 0]
